@@ -44,6 +44,9 @@ type Corpus struct {
 	Docs   []Doc `json:"docs"`
 	Cuts   []int `json:"cuts,omitempty"` // a new batch (= segment, merging is off) starts at these doc indexes
 	SegVer int   `json:"seg_ver"`
+	// All: every document also carries a composite field "_all" over body and title (the statistics
+	// of body and title must not change by that)
+	All bool `json:"all,omitempty"`
 }
 
 var dayZero = time.Date(2000, 1, 1, 12, 0, 0, 0, time.UTC)
@@ -169,6 +172,7 @@ func genCorpus(t *rapid.T) Corpus {
 			c.Cuts = []int{a, rapid.IntRange(a+1, n-1).Draw(t, "cut2")}
 		}
 	}
+	c.All = rapid.IntRange(0, 2).Draw(t, "compositeAll") == 0
 	return c
 }
 
@@ -249,6 +253,9 @@ func buildIndex(c Corpus) (*idx, *vlib.Failure) {
 			}
 			if len(d.Loc) == 2 {
 				doc.AddField(bluge.NewGeoPointField("loc", d.Loc[0], d.Loc[1]))
+			}
+			if c.All {
+				doc.AddField(bluge.NewCompositeFieldIncluding("_all", []string{"body", "title"}))
 			}
 			b.Insert(doc)
 			pending++
